@@ -62,14 +62,42 @@ class CertFiles:
         shutil.rmtree(self.dir, ignore_errors=True)
 
 
+def _libssl_of_ssl_module():
+    import _ssl  # noqa: F401
+    import ctypes
+    with open("/proc/self/maps") as maps:
+        for line in maps:
+            path = line.split()[-1]
+            if "libssl" in os.path.basename(path):
+                return ctypes.CDLL(path)
+    return None
+
+
+def set_max_fragment_length(ctx, mode):
+    """Make a stdlib client context negotiate RFC 6066 max_fragment_length (mode 1..4 = 512/1024/2048/4096-byte records),
+    through libssl of the ssl module (no Python API exists).  Returns True when it could be enabled."""
+    import ctypes
+    try:
+        lib = _libssl_of_ssl_module()
+        fn = lib.SSL_CTX_set_tlsext_max_fragment_length
+        fn.argtypes = [ctypes.c_void_p, ctypes.c_uint8]
+        fn.restype = ctypes.c_int
+        # PySSLContext = { PyObject_HEAD; SSL_CTX *ctx; ... }
+        ptr = ctypes.c_void_p.from_address(id(ctx) + object.__basicsize__).value
+        return bool(ptr) and fn(ptr, mode) == 1
+    except Exception:
+        return False
+
+
 class MemTLSClient:
     """A TLS client endpoint in memory.  to_server() yields ciphertext the client wants to send;
     from_server(data) feeds ciphertext the server wrote."""
 
-    def __init__(self, client_cert=None, min_version=None, max_version=None, server_hostname="localhost"):
+    def __init__(self, client_cert=None, min_version=None, max_version=None, server_hostname="localhost", mfl=None):
         ctx = ssl.SSLContext(ssl.PROTOCOL_TLS_CLIENT)
         ctx.check_hostname = False
         ctx.verify_mode = ssl.CERT_NONE
+        self.mfl_enabled = bool(mfl) and set_max_fragment_length(ctx, mfl)
         if client_cert is not None:
             ctx.load_cert_chain(client_cert.certfile, client_cert.keyfile)
         if min_version is not None:
